@@ -109,6 +109,14 @@ def gen_cases(rng, tier):
                 c = _case("lat-%s-%d-%d" % (kind, rel, lat), kind, rel, [])
                 c[7] = ""
                 cases.append(c + ["", str(lat)])
+    # a first send that returns late although its bytes are out (a flush that waits): an answer arriving meanwhile belongs to
+    # this transaction like any other; everything is observed when the send has returned
+    for kind in ("ni", "inv"):
+        for rel in (0, 1):
+            for code in (100, 180, 200, 486):
+                for (t, linger) in ((10, 20), (1, 400)):
+                    h = TO + 70000
+                    cases.append(["lng-%s-%d-%d-%d" % (kind, rel, code, linger), "c05", kind, str(rel), "%d:%d:a" % (t, code), str(h), "", "", "", "", str(linger)])
     # random mixes (correspondence only)
     nmix = 150 if tier == "quick" else 4000
     for i in range(nmix):
@@ -126,11 +134,29 @@ def _shift(case, s):
     """cases whose first send takes `lat` virtual ms: the transaction's timers count from the completed first send, so
     every observed instant is taken relative to it"""
     lat = int(case[9]) if len(case) > 9 and case[9] else 0
+    lat = lat or _linger(case)
     if not lat:
         return s
     head, sep, rest = s.partition("\t")
-    head = re.sub(r"@(\d+)", lambda m: "@%d" % (int(m.group(1)) - lat), head)
+    head = re.sub(r"@(\d+)", lambda m: "@%d" % max(0, int(m.group(1)) - lat), head)
     return head + sep + rest
+
+
+def _linger(case):
+    return int(case[10]) if len(case) > 10 and case[10] else 0
+
+
+def model_case(case, impl):
+    """an answer that arrives while the first send has not returned yet is seen when it returns: instant 0 of the transaction"""
+    l = _linger(case)
+    if not l:
+        return case
+    arrs = []
+    for a in case[4].split(","):
+        if a:
+            p = a.split(":")
+            arrs.append("%d:%s:%s" % (max(0, int(p[0]) - l), p[1], p[2]))
+    return case[:4] + [",".join(arrs)] + case[5:]
 
 
 def normalize_impl(case, s):
@@ -175,7 +201,7 @@ def _parse(case):
     for a in case[4].split(","):
         if a:
             p = a.split(":")
-            arrs.append((int(p[0]), int(p[1])))
+            arrs.append((max(0, int(p[0]) - _linger(case)), int(p[1])))
     return case[2], case[3] == "1", arrs, int(case[5])
 
 
@@ -215,10 +241,10 @@ def oracle(case, impl):
     first = arrs[0][0] if arrs else None
     sched = INV_SENDS if kind == "inv" else NI_SENDS
     stop = min(first if first is not None else TO, TO)
-    exp_sends = [0] if rel else [t for t in sched if t < stop]
+    exp_sends = [0] if rel else [t for t in sched if t < stop or t == 0]
     if kind == "ni" and arrs and arrs[0][1] < 200:
         # provisional seen by a non-INVITE transaction: later retransmissions are not judged
-        sends_chk = [t for t in sends if t < stop]
+        sends_chk = [t for t in sends if t < stop or t == 0]
     else:
         sends_chk = sends
     if sends_chk != exp_sends:
